@@ -82,7 +82,11 @@ func C15_ReadStriped[S, D signal.SignalTypes]() {
 		return
 	}
 	K := vf.Pick("K", 1, vf.Param("MaxK15", 2))
-	src := allocAny[S](C, K, "src")
+	src := allocAny[S](C, K+1, "src").Slice(0, K)
+	for i, r := 0, vf.Pick("ragged", 0, C-1); i < r; i++ {
+		src.AppendSample(vf.Any[S]("tail")) // a partly filled last frame must not confuse the check
+	}
+	sl, sc := src.Len(), src.Cap()
 	dst := make([][]D, n)
 	for i := range dst {
 		dst[i] = anySlice[D]("dst", K)
@@ -92,7 +96,7 @@ func C15_ReadStriped[S, D signal.SignalTypes]() {
 	sbefore := src.Sample(j)
 	panicked := vf.Panics(func() { signal.ReadStriped(src, dst) })
 	vf.Assert("mismatch-panics", panicked)
-	vf.Assert("buffer-unmodified", vf.SameBits(src.Sample(j), sbefore) && src.Len() == C*K && src.Cap() == C*K)
+	vf.Assert("buffer-unmodified", vf.SameBits(src.Sample(j), sbefore) && src.Len() == sl && src.Cap() == sc)
 	vf.Assert("slice-count-unmodified", len(dst) == n)
 	for i := range dst {
 		w := vf.IntRange("w", 0, K-1)
@@ -107,7 +111,11 @@ func C15_WriteStriped[S, D signal.SignalTypes]() {
 		return
 	}
 	K := vf.Pick("K", 1, vf.Param("MaxK15", 2))
-	dst := allocAny[D](C, K, "dst")
+	dst := allocAny[D](C, K+1, "dst").Slice(0, K)
+	for i, r := 0, vf.Pick("ragged", 0, C-1); i < r; i++ {
+		dst.AppendSample(vf.Any[D]("tail"))
+	}
+	dl, dc := dst.Len(), dst.Cap()
 	src := make([][]S, n)
 	for i := range src {
 		src[i] = anySlice[S]("src", K)
@@ -117,7 +125,7 @@ func C15_WriteStriped[S, D signal.SignalTypes]() {
 	before := dst.Sample(k)
 	panicked := vf.Panics(func() { signal.WriteStriped(src, dst) })
 	vf.Assert("mismatch-panics", panicked)
-	vf.Assert("buffer-unmodified", vf.SameBits(dst.Sample(k), before) && dst.Len() == C*K && dst.Cap() == C*K)
+	vf.Assert("buffer-unmodified", vf.SameBits(dst.Sample(k), before) && dst.Len() == dl && dst.Cap() == dc)
 	for i := range src {
 		w := vf.IntRange("w", 0, K-1)
 		vf.Assert("caller-slices-unmodified", len(src[i]) == K && vf.SameBits(src[i][w], orig[i][w]))
@@ -136,12 +144,14 @@ func C15_Put[T signal.SignalTypes]() {
 	}
 	a := signal.Allocator{Channels: C, Length: L, Capacity: K}
 	p := signal.PoolAlloc[T](a)
-	b := allocAny[T](C2, K2, "b")
-	k := vf.IntRange("k", 0, b.Len()-1)
-	before := b.Sample(k)
+	whole := allocAny[T](C2, K2, "b")
+	b := whole.Slice(0, vf.Pick("filled", 0, K2)) // a rejected buffer may be partially filled
+	k := vf.IntRange("k", 0, whole.Len()-1)
+	before := whole.Sample(k)
+	bl := b.Len()
 	panicked := vf.Panics(func() { p.Put(b) })
 	vf.Assert("mismatch-panics", panicked)
-	vf.Assert("buffer-unmodified", vf.SameBits(b.Sample(k), before) && b.Len() == C2*K2 && b.Cap() == C2*K2)
+	vf.Assert("buffer-unmodified", vf.SameBits(whole.Sample(k), before) && b.Len() == bl && b.Cap() == C2*K2)
 	// the pool did not take it: whatever Get returns is not that buffer and has the pool's shape
 	g := p.Get()
 	vf.Assert("pool-unmodified", g != b && g.Channels() == C && g.Len() == C*L && g.Cap() == C*K)
